@@ -4,7 +4,7 @@ from symx import loader, eg
 _ST = {}
 
 QUICK_PRIMES = [11, 13, 19, 23]
-THOROUGH_PRIMES = [11, 13, 17, 19, 23, 29, 31, 37, 43, 61, 67, 97, 127]
+THOROUGH_PRIMES = [11, 13, 17, 19, 23, 29, 31]
 
 
 def pkg():
